@@ -260,6 +260,8 @@ def step (st : St) (line : String) : St × String :=
         match parseIn w with
         | some w => run1 st n e (.deliver w)
         | none => (st, "bad-op")
+      -- the size of the flow table (the implementation answers through its verification hook)
+      | "flowcount", [] => (st, s!"count {e.flows.length} | ")
       | "wstate", [h] =>
         match h.toNat? with
         | some h =>
